@@ -28,3 +28,7 @@ pub mod udp;
 
 pub(crate) mod transport;
 pub(crate) mod util;
+
+#[cfg(kani)]
+#[path = "/verif/harness/common.rs"]
+pub(crate) mod verif_common;
